@@ -1,6 +1,7 @@
 package main
 
 import (
+	"bytes"
 	"fmt"
 	"strings"
 )
@@ -17,14 +18,36 @@ func genC02(tier string, seed uint64, emit func(string)) {
 	if tier == "thorough" {
 		streams = 4000
 	}
-	for i := 0; i < streams; i++ {
+	// payload sizes around the buffer sizes an implementation may use internally (512, 1 KiB, 4 KiB, 8 KiB, 64 KiB):
+	// a large bulk string - alone, inside an array, in the middle of a pipeline - with values behind it in the same read
+	sizes := []int{511, 512, 513, 1023, 1024, 1025, 4093, 4094, 4095, 4096, 4097, 5000, 8191, 8192, 8193, 16384, 65535, 65536, 70000}
+	big := len(sizes)
+	if tier != "thorough" {
+		big = len(sizes) // all sizes in both tiers: they are cheap (one whole + a few dozen splits each)
+	}
+	for i := 0; i < streams+big; i++ {
 		nvals := 1 + r.Intn(8)
 		var vals []*Node
 		var b []byte
 		for j := 0; j < nvals; j++ {
 			t := genTree(r, r.Intn(4), 6, true, r.Chance(1, 200))
+			if i >= streams && j == nvals/2 {
+				// the large value of this stream
+				payload := bytes.Repeat([]byte{byte('a' + i%26)}, sizes[i-streams])
+				t = &Node{Kind: 'b', P: payload}
+				if i%2 == 1 {
+					t = &Node{Kind: 'a', Es: []*Node{{Kind: 'b', P: []byte("ECHO")}, {Kind: 'b', P: payload}}}
+				}
+			}
 			vals = append(vals, t)
 			t.refEnc(&b)
+		}
+		if i >= streams && nvals == 1 {
+			// something must follow the large value
+			t := &Node{Kind: 's', P: []byte("PONG")}
+			vals = append(vals, t)
+			t.refEnc(&b)
+			nvals = 2
 		}
 		var vt []string
 		for _, v := range vals {
@@ -33,7 +56,9 @@ func genC02(tier string, seed uint64, emit func(string)) {
 		head := fmt.Sprintf("chunks %d %s |", nvals, strings.Join(vt, " "))
 		emitSegs := func(segs [][]byte) { emit(segsCase(head, segs)) }
 		emitSegs([][]byte{b})
-		emitSegs(oneByteSegs(b))
+		if i < streams || len(b) <= 20000 {
+			emitSegs(oneByteSegs(b))
+		}
 		// every 2-way split point (exhaustive for streams up to 300 bytes, sampled beyond)
 		if len(b) <= 300 || tier == "thorough" && len(b) <= 3000 {
 			for c := 1; c < len(b); c++ {
